@@ -170,6 +170,15 @@ fn sweep(prop: &str, ty: &str, hk: u8, n: usize, flags: &[&str], extra: &[(&str,
     x
 }
 
+/// E1 spot check: the growth path is walked to `n`, but only the states from `from` elements on are
+/// branched from (one deviation, class keys) - large states around a particular resize.
+#[allow(clippy::too_many_arguments)]
+fn spot(prop: &str, ty: &str, hk: u8, alpha: &str, flags: &[&str], from: usize, n: usize, profile: &str, secs: f64) -> ShardSpec {
+    let mut x = e1(prop, ty, hk, 0, alpha, flags, n, 1, 0, profile, secs);
+    x.extra.insert("from".into(), from.to_string());
+    x
+}
+
 fn as_set(mut x: ShardSpec) -> ShardSpec {
     x.world = "set".into();
     x
@@ -219,6 +228,8 @@ pub fn plan(prop: &str, tier: &str) -> Option<Plan> {
                 s.push(e2(prop, "big", H_LOW, "look1+mut+ch0+shape2", &[], 3, "chk", 40.0));
                 s.push(e1(prop, "u32", H_GOOD, 0, "look1+mut+ch0+shape", &[], 600, 1, 0, "chk", 40.0));
                 s.push(e1(prop, "u32", H_LOW, 0, "look1+mut+ch0+shape", &[], 300, 1, 0, "chk", 40.0));
+                // the whole resize of a 1024-bucket table (897..1010 elements), one deviation at every point
+                s.push(spot(prop, "u32", H_GOOD, "look1+mut+ch0+shape+iterlite", &["cursor"], 890, 1012, "chk", 40.0));
                 // PathBuf keys looked up / removed as &Path in four spellings of different byte length
                 s.push(e1(prop, "u32", H_GOOD, 0, "borrow", &[], 130, 1, 0, "chk", 40.0));
                 s.push(e1(prop, "u32", H_LOW, 0, "mut1+shape/borrow", &[], 31, 2, 1, "chk", 40.0));
@@ -263,6 +274,11 @@ pub fn plan(prop: &str, tier: &str) -> Option<Plan> {
                 for &hk in &HS4 {
                     s.push(e1(prop, "u32", hk, 0, "look1+mut+ch0+shape", &[], if hk == H_CONST { 500 } else { 800 }, 1, 0, "chk", 900.0));
                 }
+                for &hk in &[H_GOOD, H_TAG] {
+                    s.push(spot(prop, "u32", hk, "look+mut+ch1+bulk+shape+iter", &["cursor"], 890, 1012, "chk", 1200.0));
+                    s.push(spot(prop, "u32", hk, "look1+mut+ch0+shape", &["cursor"], 3580, 4040, "chk", 1200.0));
+                }
+                s.push(spot(prop, "tk", H_GOOD, "look1+mut+ch0+shape+iterlite", &["cursor"], 890, 1012, "chk", 1200.0));
                 for &hk in &HS4 {
                     s.push(e1(prop, "u32", hk, 0, "borrow", &[], 300, 1, 0, "chk", 900.0));
                     s.push(e1(prop, "u32", hk, 0, "mut1+shape/borrow", &[], 64, 2, 1, "chk", 900.0));
@@ -431,6 +447,8 @@ pub fn plan(prop: &str, tier: &str) -> Option<Plan> {
                     s.push(as_set(e1(prop, "tk", H_GOOD, 0, "skey+sshape", &fl, if prof == "asan" { 33 } else { 64 }, 1, 1, prof, 45.0)));
                     s.push(e1(prop, "tk", H_GOOD, 0, "wrong/look1+mut+ch0+shape+iterlite", &fl, if prof == "asan" { 16 } else { 31 }, 2, 0, prof, 45.0));
                     if prof == "chk" {
+                        // the tail of the resize of a 1024-bucket table
+                        s.push(spot(prop, "tk", H_GOOD, "look1+mut+ch0+shape+iterlite", &fl, 1000, 1012, prof, 45.0));
                         s.push(e1(prop, "tk", H_GOOD, 0, "rmold/look1+mut1+ch0+iterlite+clone", &fl, 72, 2, 0, prof, 45.0));
                         s.push(e1(prop, "tk", H_GOOD, 0, "look1+mut+ch0+shape+iterlite", &fl, 300, 1, 0, prof, 45.0));
                         s.push(e1(prop, "tk", H_LOW, 0, "rmold/rmold/look1+mut1+ch0+iterlite", &fl, 66, 3, 0, prof, 45.0)); // (the resize that starts at 57 elements is over at 64)
@@ -470,6 +488,12 @@ pub fn plan(prop: &str, tier: &str) -> Option<Plan> {
                     s.push(as_set(e1(prop, "big", H_LOW, 0, "skey+sshape+siter", &fl, 64, 1, 1, prof, 900.0)));
                     s.push(e2(prop, "big", H_GOOD, "look1+mut+ch0+shape2+iterlite", &fl, 4, prof, 1200.0));
                     s.push(e1(prop, "tk", H_GOOD, 0, "mut1+shape/nokey", &fl, 64, 2, 0, prof, 900.0));
+                    if prof == "chk" {
+                        s.push(spot(prop, "tk", H_GOOD, "look1+mut+ch1+bulk+shape+iterlite", &fl, 890, 1012, prof, 1200.0));
+                        s.push(spot(prop, "big", H_GOOD, "look1+mut+ch0+shape+iterlite", &fl, 440, 510, prof, 1200.0));
+                    } else {
+                        s.push(spot(prop, "tk", H_GOOD, "look1+mut+ch0+shape+iterlite", &fl, 980, 1012, prof, 1200.0));
+                    }
                     s.push(sweep(prop, "u32", H_GOOD, 1_000_000, &["cursor", "cheap"], &[("drain_old", "1"), ("audit_every", "0")], prof, 900.0));
                     s.push(sweep(prop, "tk", H_LOW, 3_000, &["cursor", "cheap"], &[("drain_old", "1"), ("audit_every", "0")], prof, 900.0));
                     s.push(sweep(prop, "big", H_GOOD, 10_000, &["cursor", "cheap"], &[("drain_old", "1"), ("audit_every", "0")], prof, 900.0));
@@ -518,6 +542,7 @@ pub fn plan(prop: &str, tier: &str) -> Option<Plan> {
                 s.push(e1(prop, "u32", H_GOOD, 0, "rmold/iter", &["cursor"], 72, 2, 0, "chk", 45.0));
                 s.push(e1(prop, "u32", H_LOW, 0, "rmold/iter", &["cursor"], 72, 2, 0, "chk", 45.0));
                 s.push(e1(prop, "u32", H_GOOD, 0, "iter", &["cursor"], 400, 1, 0, "chk", 45.0));
+                s.push(spot(prop, "u32", H_GOOD, "iter", &["cursor"], 1000, 1012, "chk", 45.0));
                 s.push(e1(prop, "u32", H_GOOD, 0, "rmold/rmold/iter", &["cursor"], 72, 3, 0, "chk", 45.0));
                 s.push(e1(prop, "tk", H_GOOD, 0, a, &[], 31, 2, 1, "chk", 45.0));
                 s.push(e2(prop, "u32", H_GOOD, "mut1+ch0+shape2+iter", &[], 3, "chk", 45.0));
@@ -555,6 +580,7 @@ pub fn plan(prop: &str, tier: &str) -> Option<Plan> {
                 s.push(e1(prop, "u32", H_GOOD, 0, "rmold/predlite", &["cursor"], 72, 2, 0, "chk", 45.0));
                 s.push(e1(prop, "u32", H_LOW, 0, "rmold/predlite", &["cursor"], 72, 2, 0, "chk", 45.0));
                 s.push(e1(prop, "u32", H_GOOD, 0, "predlite", &["cursor"], 400, 1, 0, "chk", 45.0));
+                s.push(spot(prop, "u32", H_GOOD, "pred", &["cursor"], 1000, 1012, "chk", 45.0));
                 s.push(e1(prop, "u32", H_GOOD, 0, "rmold/rmold/predlite", &["cursor"], 72, 3, 0, "chk", 45.0));
                 s.push(e1(prop, "tk", H_GOOD, 0, "pred", &["cursor"], 64, 1, 0, "chk", 45.0));
                 s.push(e2(prop, "u32", H_GOOD, "mut1+ch0+shape2+pred", &["cursor"], 3, "chk", 45.0));
